@@ -221,63 +221,256 @@ def _single(r):
     return None
 
 
-def check_scan(prog, rep, m):
+def _bind_rec(rec, callee):
+    """{parameter: argument value} of a recorded call"""
+    b = {}
+    for p, a in zip(callee.params, rec[1]):
+        b[p] = a
+    for kname, v in (rec[5] or {}).items():
+        b[kname] = v
+    return b
+
+
+def check_scan(prog, rep, m, R=None):
+    """G3 / G5 on the interpreted start-pixel scan (program-ordered events: calls, list appends)."""
+    from fractions import Fraction as Fr
+    from ..kutil import NONE_VALUE, CannotEvaluate, eval_cond_full, evaluate
+    from ..sym import Sym, walk_atoms
     f = m.funcs.get('_scan')
-    if f is None:
-        raise AnalysisIncomplete('_scan not found')
-    from ..inline import inline_view
-    f = inline_view(prog, f)      # follow-then-transform glue reads as if written in place
+    follow = m.funcs.get('_follow')
+    if f is None or follow is None:
+        raise AnalysisIncomplete('_scan / _follow not found')
     entry = 'polygonize scan'
-    follows = [n for n in f.own_nodes() if isinstance(n, ast.Assign) and isinstance(n.value, ast.Call) and short(n.value) == '_follow']
-    pm = parent_map(f.node)
-    # the start-pixel scan looks at every pixel: holes (also holes of masked cells, which start no region) are found
-    # on the N side of ANY pixel, so the scan may not stop when the last region's start pixel has been seen
-    scans = [n for n in f.own_nodes() if isinstance(n, ast.For) and any(x in follows for x in ast.walk(n))]
-    for lp in scans:
-        from ..astutil import inline as _inl, straightline_env as _senv
-        it = T(_inl(lp.iter, _senv(f.node.body, upto=lp)))
-        full = it in ('range(nx*ny)', 'range(0,nx*ny)', 'range(ny*nx)', 'range(len(regions))', 'range(regions.size)', 'range(regions.shape[0])')
-        exits = [x for x in ast.walk(lp) if isinstance(x, (ast.Break, ast.Return))]
-        rep.add('G5', f, entry, 'start-pixel scan: for %s in %s, %d early exits' % (T(lp.target), norm(lp.iter), len(exits)), lp.lineno,
-                full and not exits, 'every pixel must be examined as a possible start of an exterior or of a hole: an early exit '
-                '(e.g. once all regions have their exterior) loses holes that lie later in scan order, such as holes made of masked cells')
-    for n in follows:
-        blk = None
-        p = pm.get(n)
-        for fld in ('body', 'orelse'):
-            if n in getattr(p, fld, []):
-                blk = getattr(p, fld)
-        i = blk.index(n)
-        pts = T(n.targets[0].elts[1]) if isinstance(n.targets[0], ast.Tuple) else None
-        nxt = blk[i + 1] if i + 1 < len(blk) else None
-        ok = isinstance(nxt, ast.If) and T(nxt.test) == 'transformisnotNone' and \
-            [T(s) for s in nxt.body] == ['_transform_points(%s,transform)' % pts] and not nxt.orelse
-        # and the points are stored only after that
-        later = [T(s) for s in blk[i + 2:]]
-        stored = any(('[%s]' % pts) in s or ('(%s)' % pts) in s for s in later)
-        before = any(('[%s]' % pts) in T(s) or ('append(%s)' % pts) in T(s) for s in blk[:i + 1])
-        hole = T(n.value.args[-1])
-        rep.add('G3', f, entry, '%s ring: %s' % ('hole' if hole == 'True' else 'exterior', T(n)[:80]), n.lineno,
-                ok and stored and not before,
-                'every ring must pass through the affine transform (when one is given) before it is appended')
-    rep.add('G3', f, entry, '%d boundary-follower call sites' % len(follows), f.node.lineno, len(follows) == 2 and
-            sorted(T(n.value.args[-1]) for n in follows) == ['False', 'True'], 'one exterior and one hole site')
-    t = {T(s) for s in f.own_nodes() if isinstance(s, (ast.Expr, ast.Assign))}
-    ok = 'column.append(values[ij])' in t and 'polygons.append([points])' in t and 'polygons[region-1].append(points)' in t and 'region_done=region' in t
+    k = interpret(prog, f, strict=False)
+    evs = list(k.events)
+    fcalls = [(n, ev[1]) for n, ev in enumerate(evs) if ev[0] == 'call' and len(ev[1]) > 6 and ev[1][6] is follow]
+    if R is None or not R.ok:
+        rep.add('G5', f, entry, 'start-pixel scan', f.node.lineno, None, 'the follower\'s parameter roles are not known')
+        return
+    vparams = {s_.arr.name for s_ in R.k.stores if s_.arr.init == 'param'}
+    rep.add('G3', f, entry, '%d boundary-follower call sites' % len(fcalls), f.node.lineno,
+            len(fcalls) == 2 and len(vparams) == 1, 'one exterior and one hole site')
+    if len(fcalls) != 2 or len(vparams) != 1:
+        return
+    vparam = vparams.pop()
+    binds = [(n, rec, _bind_rec(rec, follow)) for n, rec in fcalls]
+    # the scan loop
+    lps = [l for l in k.loops if all(l in rec[4] for n, rec in fcalls)]
+    if len(lps) != 1:
+        rep.add('G5', f, entry, 'start-pixel scan', f.node.lineno, None, 'the follower is called under %d common loops' % len(lps))
+        return
+    lp = lps[0]
+    ij = Sym(lp.var)
+    nx_args = {repr(b.get(R.nx)) for n, rec, b in binds}
+    nxv = binds[0][2].get(R.nx)
+    nxr = Rat.sym(nxv[1]) if isinstance(nxv, tuple) and nxv and nxv[0] == 'param' else nxv
+    regs = binds[0][2].get(R.regions)
+    vis = binds[0][2].get(vparam)
+    same = all(b.get(R.regions) is regs or repr(b.get(R.regions)) == repr(regs) for n, rec, b in binds) and \
+        all(b.get(vparam) is vis for n, rec, b in binds) and len(nx_args) == 1 and isinstance(nxr, Rat)
+    rep.add('G5', f, entry, 'both follower calls share the region array, the visited flags and the row length', f.node.lineno, same, '')
+    if not same:
+        return
+    # every pixel is examined: full range, no exit
+    exits = len(lp.breaks) + sum(1 for v, g in k.returns if g)
+    hi_ok = None
+    try:
+        env = {a: Fr(3 + n_) for n_, a in enumerate(sorted((x for x in walk_atoms(lp.hi) if isinstance(x, Sym)), key=repr))}
+        # the flattened size: nx*ny, or the length of one of the flat arrays
+        nyv = binds[0][2].get([p for p in follow.params if p not in (R.regions, vparam, R.nx, R.start, R.hole)][0]) \
+            if len(follow.params) == 6 else None
+        nyr = Rat.sym(nyv[1]) if isinstance(nyv, tuple) and nyv and nyv[0] == 'param' else nyv
+        hi_ok = lp.lo == Rat.const(0) and (lp.step in (None, Rat.const(1))) and \
+            ((isinstance(nyr, Rat) and lp.hi == nxr * nyr) or
+             any(isinstance(a, App) and a.name in ('shape', 'len') for a in [_atom(lp.hi)]))
+    except (CannotEvaluate, IndexError):
+        hi_ok = None
+    rep.add('G5', f, entry, 'start-pixel scan: for %s in [%s, %s), %d early exits' % (lp.var, show(lp.lo, 20), show(lp.hi, 40), exits),
+            lp.node.lineno, (hi_ok and exits == 0) if hi_ok is not None else None,
+            'every pixel must be examined as a possible start of an exterior or of a hole: an early exit '
+            '(e.g. once all regions have their exterior) loses holes that lie later in scan order, such as holes made of masked cells')
+    # which call is the exterior, which the hole; their start cells
+    roles = {}
+    for n, rec, b in binds:
+        hv = b.get(R.hole)
+        if hv == ('const', False) or hv == Rat.const(0):
+            roles['ext'] = (n, rec, b)
+        elif hv == ('const', True) or hv == Rat.const(1):
+            roles['hole'] = (n, rec, b)
+    if set(roles) != {'ext', 'hole'}:
+        rep.add('G5', f, entry, 'follower start cells', f.node.lineno, None, 'hole flags of the two calls: %s' % [b.get(R.hole) for n, rec, b in binds])
+        return
+    se, sh = roles['ext'][2].get(R.start), roles['hole'][2].get(R.start)
+    ok = isinstance(se, Rat) and isinstance(sh, Rat) and se == Rat.atom(ij) and sh == Rat.atom(ij) - nxr
+    rep.add('G5', f, entry, 'follower start cells: exterior %s, hole %s' % (show(se, 30), show(sh, 30)), f.node.lineno, ok,
+            'the exterior is followed from the pixel itself (S edge, facing E), a hole from the pixel below (its N edge, facing W)')
+    # start conditions as decision tables
+    carried = {n_: v for n_, v in lp.carried.items()}
+    dphi = None
+    dname = None
+    for n_, (phi, endv) in carried.items():
+        leaves = _ite_leaves(endv) if isinstance(endv, Rat) else []
+        if any(isinstance(_atom(x), App) and _atom(x).name == 'unpack' for x in leaves):
+            dphi, dname = _atom(phi), n_
+    NX = 3
+
+    def table(guards):
+        out = {}
+        for cell in (1, 4):
+            for vv in range(4):
+                for r0 in range(3):
+                    for r1 in range(3):
+                        for d in range(2):
+                            def hook(key, idx, cell=cell, vv=vv, r0=r0, r1=r1):
+                                isvis = key == getattr(vis, 'name', None)
+                                if len(idx) != 1:
+                                    raise CannotEvaluate('index')
+                                if isvis:
+                                    if idx[0] == cell:
+                                        return vv
+                                    raise CannotEvaluate('visited flag of another pixel')
+                                if idx[0] == cell:
+                                    return r0
+                                if idx[0] == cell - NX and idx[0] >= 0:
+                                    return r1
+                                raise CannotEvaluate('region of another pixel')
+                            env = {ij: Fr(cell), '__read__': hook}
+                            for x in walk_atoms(nxr):
+                                if isinstance(x, Sym):
+                                    env[x] = Fr(NX)
+                            if dphi is not None:
+                                env[dphi] = Fr(d)
+                            out[(cell, vv, r0, r1, d)] = all(eval_cond_full(g, env) for g in guards)
+        return out
+    for role, want, text in (
+            ('ext', lambda c, v, r0, r1, d: (v & 1) == 0 and r0 == d + 1,
+             'an exterior starts at a pixel not yet on a followed exterior whose region is the next one (done + 1)'),
+            ('hole', lambda c, v, r0, r1, d: c >= NX and (v & 2) == 0 and r0 != r1 and r1 != 0,
+             'a hole starts above a pixel of another, non-masked region, once per N edge')):
+        n, rec, b = roles[role]
+        try:
+            got = table(rec[2])
+            bad = [key for key, val in got.items() if val != want(*key)]
+            ok = not bad
+            why = text + ('; differs for (pixel, visited, region, region below, done) = %s' % (bad[0],) if bad else
+                          ' - %d cases' % len(got))
+        except CannotEvaluate as e:
+            ok, why = None, '%s: %s' % (text, e)
+        rep.add('G5', f, entry, '%s start condition' % ('exterior' if role == 'ext' else 'hole'), rec[3].lineno, ok, why)
+    # the region counter follows the exteriors
+    ok = None
+    if dname is not None:
+        phi, endv = lp.carried[dname]
+        ea = _atom(endv)
+        extcall = roles['ext'][1]
+        if isinstance(ea, App) and ea.name == 'ite':
+            leaves = _ite_leaves(endv)
+            ua = [_atom(x) for x in leaves if isinstance(_atom(x), App) and _atom(x).name == 'unpack']
+            ok = len(leaves) == 2 and len(ua) == 1 and ua[0].args[1] == Rat.const(0) and phi in leaves and \
+                lp.pre.get(dname) == Rat.const(0)
+    rep.add('G5', f, entry, 'regions are taken in increasing order: done <- region of the exterior just followed, 0 before the scan',
+            f.node.lineno, ok, '')
+    # G3: transform before any use of a ring
+    tparam = None
+    for n, rec, b in binds:
+        pts = None
+        later = [(n2, ev) for n2, ev in enumerate(evs) if n2 > n]
+        # the ring of this call: second component of the call's value
+        def is_ring(v, n=n, rec=rec):
+            a_ = _atom(v) if isinstance(v, Rat) else None
+            return isinstance(a_, App) and a_.name == 'unpack' and a_.args[1] == Rat.const(1) and \
+                repr(a_.args[0]).startswith('call:' + follow.name + '(') and _same_call(a_.args[0], rec, R, follow)
+        tcalls = [(n2, ev[1]) for n2, ev in later if ev[0] == 'call' and ev[1][1] and is_ring(ev[1][1][0])]
+        apps = [(n2, ev[1]) for n2, ev in later if ev[0] == 'append' and any(_mentions(v, is_ring) for v in ev[1][1])]
+        # a copy / view of the ring taken before the (in-place) transform would be stored untransformed
+        derived = [(n2, ev[1]) for n2, ev in later if ev[0] == 'append' and not any(_mentions(v, is_ring) for v in ev[1][1]) and
+                   any(_mentions_deep(v, is_ring) for v in ev[1][1])]
+        hole = roles['hole'][0] == n
+        ok = None
+        why = ''
+        if len(tcalls) == 1 and (apps or derived):
+            n2, trec = tcalls[0]
+            targ = trec[1][1] if len(trec[1]) > 1 else None
+            tname = targ[1] if isinstance(targ, tuple) and targ and targ[0] == 'param' else None
+            tparam = tname
+            try:
+                res = []
+                for tv in (NONE_VALUE, Fr(5)):
+                    base_env = {Sym(tname): tv} if tname else {}
+                    extra = [g for g in trec[2] if g not in rec[2]]
+                    res.append(all(eval_cond_full(g, base_env) for g in extra))
+                ok = tname in f.params and res == [False, True] and all(g in trec[2] for g in rec[2]) and \
+                    all(n3 > n2 for n3, a_ in derived)
+                why = 'transform applied (in place) iff given: %s; ring stored at events %s, copies stored at %s, transformed at event %d' % (
+                    res, [n3 for n3, a_ in apps], [n3 for n3, a_ in derived], n2)
+            except CannotEvaluate as e:
+                ok, why = None, str(e)
+        elif not tcalls:
+            ok, why = False, 'the ring is stored without passing through the transform'
+        elif not apps and not derived:
+            ok, why = None, 'the ring is not stored by an append'
+        rep.add('G3', f, entry, '%s ring' % ('hole' if hole else 'exterior'), rec[3].lineno, ok,
+                'every ring must pass through the affine transform (when one is given) before it is stored; ' + why)
+    # G5: what is stored where
+    ext_n, ext_rec, ext_b = roles['ext']
+    hol_n, hol_rec, hol_b = roles['hole']
+    apps = [ev[1] for ev in evs if ev[0] == 'append']
+    col = [a_ for a_ in apps if a_[0] and a_[0][1] is None and len(a_[1]) == 1 and isinstance(a_[1][0], Rat) and
+           isinstance(_atom(a_[1][0]), App) and _atom(a_[1][0]).name in ('read', 'cell?')]
+    newpoly = [a_ for a_ in apps if a_[0] and a_[0][1] is None and len(a_[1]) == 1 and hasattr(a_[1][0], 'items')]
+    holes = [a_ for a_ in apps if a_[0] and a_[0][1] is not None]
+    ok = None
+    why = ''
+    if len(col) == 1 and len(newpoly) == 1 and len(holes) == 1:
+        ca = _atom(col[0][1][0])
+        cidx = ca.args[1]
+        vals_param = ca.args[0]
+        hidx = holes[0][0][1]
+        ha = _atom(hidx + Rat.const(1)) if isinstance(hidx, Rat) else None
+        ret = k.returns[0][0] if len(k.returns) == 1 and hasattr(k.returns[0][0], 'items') else None
+        ok = cidx == Rat.atom(ij) and vals_param in f.params and col[0][2] == ext_rec[2] and newpoly[0][2] == ext_rec[2] and \
+            len(newpoly[0][1][0].items) == 1 and holes[0][2] == hol_rec[2] and holes[0][0][0] == newpoly[0][0][0] and \
+            isinstance(ha, App) and ha.name == 'unpack' and ha.args[1] == Rat.const(0) and _same_call(ha.args[0], hol_rec, R, follow) and \
+            ret is not None and len(ret.items) == 2 and getattr(ret.items[0], 'var', None) == col[0][0][0] and \
+            getattr(ret.items[1], 'var', 0) == newpoly[0][0][0]
+        why = 'value list <- %s; polygon list <- [ring]; hole -> polygon[%s]' % (show(col[0][1][0], 40), show(hidx, 60))
+    else:
+        why = '%d value appends, %d new-polygon appends, %d hole appends' % (len(col), len(newpoly), len(holes))
     rep.add('G5', f, entry, 'column value from the start cell; hole attached to polygons[region-1]', f.node.lineno, ok,
-            'the polygon\'s value is the value of its start pixel and a hole belongs to the polygon of its region')
-    NP = lambda n: T(n).replace('(', '').replace(')', '')   # noqa
-    ex = [n for n in f.own_nodes() if isinstance(n, ast.If) and NP(n.test) == 'notvisited[ij]&1andregions[ij]==region_done+1']
-    ho = [n for n in f.own_nodes() if isinstance(n, ast.If) and NP(n.test) == 'ij>=nxandnotvisited[ij]&2andregions[ij]!=regions[ij-nx]andregions[ij-nx]!=0']
-    rep.add('G5', f, entry, 'exterior / hole start conditions', f.node.lineno, len(ex) == 1 and len(ho) == 1,
-            'an exterior starts at the first unvisited pixel of the next region; a hole starts where the pixel below belongs '
-            'to another non-masked region')
-    args = {T(n.value.args[4]) + ',' + T(n.value.args[5]) for n in follows}
-    rep.add('G5', f, entry, 'follower start cells %s' % sorted(args), f.node.lineno, args == {'ij,False', 'ij-nx,True'}, '')
+            'the polygon\'s value is the value of its start pixel, one new polygon per exterior, and a hole belongs to the polygon '
+            'of the region the follower returned (regions count from 1); ' + why)
     # transform
     tp = m.funcs.get('_transform_points')
     if tp is None:
         raise AnalysisIncomplete('_transform_points not found')
+    check_transform(prog, rep, tp, entry)
+
+
+def _mentions(v, pred):
+    if hasattr(v, 'items'):
+        return any(_mentions(x, pred) for x in v.items)
+    return isinstance(v, Rat) and pred(v)
+
+
+def _mentions_deep(v, pred):
+    from ..sym import walk_atoms
+    if hasattr(v, 'items'):
+        return any(_mentions_deep(x, pred) for x in v.items)
+    return isinstance(v, Rat) and any(pred(Rat.atom(a)) for a in walk_atoms(v) if isinstance(a, App))
+
+
+def _same_call(callrat, rec, R, follow):
+    """is this call value the one recorded by rec (same start-cell argument)?"""
+    a = _atom(callrat) if isinstance(callrat, Rat) else callrat
+    if not isinstance(a, App) or not a.name.startswith('call:'):
+        return False
+    b = _bind_rec(rec, follow)
+    st = b.get(R.start)
+    i = follow.params.index(R.start)
+    return i < len(a.args) and isinstance(st, Rat) and a.args[i] == st
+
+
+def check_transform(prog, rep, tp, entry):
     k = interpret(prog, tp)
     pts, tr = tp.params[:2]
     ok = False
@@ -298,54 +491,311 @@ def check_scan(prog, rep, m):
             repr(lp[0].hi) in ("shape('%s', 0)" % pts, "len(arr('%s'))" % pts, "len(%s)" % pts), 'loop over all points')
 
 
+def _atom(r):
+    """the single atom a Rat consists of (coefficient 1), else None"""
+    if isinstance(r, Rat) and r.d.is_const() and len(r.n.t) == 1:
+        (mm, c), = r.n.t.items()
+        if len(mm) == 1 and mm[0][1] == 1 and c == r.d.const_value():
+            return mm[0][0]
+    return None
+
+
+def _ite_leaves(r, out=None):
+    """leaves of a (nested) ite expression"""
+    out = [] if out is None else out
+    a = _atom(r)
+    if isinstance(a, App) and a.name == 'ite':
+        _ite_leaves(a.args[1], out)
+        _ite_leaves(a.args[2], out)
+    else:
+        out.append(r)
+    return out
+
+
+class FollowRoles:
+    """Roles of the follower's parameters and loop variables, found from what they do (not from their names):
+    regions = the array read for the returned region id, start = its index, position P = the walk variable that starts at
+    `start` and is compared with its start value on exit, heading F = the other variable of the exit test, left L = the
+    other variable F is updated from, counter C = the index of the vertex stores, hole = the parameter that selects the
+    start heading, visited = the array parameter that is written."""
+    def __init__(self, prog, f):
+        from ..sym import Sym, walk_atoms
+        self.f = f
+        self.k = k = interpret(prog, f, strict=False)
+        self.why = None
+        self.ok = False
+        if len(k.returns) != 1 or not hasattr(k.returns[0][0], 'items') or len(k.returns[0][0].items) != 2:
+            self.why = 'the follower must return (region, points) once'
+            return
+        self.ret_region, self.ret_points = k.returns[0][0].items
+        a = _atom(self.ret_region) if isinstance(self.ret_region, Rat) else None
+        if not (isinstance(a, App) and a.name in ('read', 'cell?') and len(a.args) >= 2):
+            self.why = 'returned region is not a read of the regions array'
+            return
+        self.regions = a.args[0]
+        self.ret_index = a.args[1]
+        ws = [l for l in k.loops if l.kind == 'while']
+        if len(ws) != 1:
+            self.why = 'walk loop not identified'
+            return
+        self.w = w = ws[0]
+        self.outer = [l for l in k.loops if l.kind != 'while']
+        for n_, v_ in list(w.pre.items()):
+            if isinstance(v_, tuple) and len(v_) == 2 and v_[0] == 'param':
+                w.pre[n_] = Rat.sym(v_[1])      # a parameter used as it is
+
+        def roots(v):
+            return {x.name.split('~')[0] for x in walk_atoms(v) if isinstance(x, Sym)} if isinstance(v, Rat) else set()
+        # position: carried variable whose value before the walk is (a loop copy of) the start parameter
+        P = [n for n in w.carried if isinstance(w.pre.get(n), Rat) and isinstance(_atom(w.pre[n]), Sym) and
+             _atom(w.pre[n]).name.split('~')[0] in f.params]
+        if len(P) > 1 and len(w.breaks) == 1:
+            # the position is the one the exit test compares with its start value
+            def compared(c, d):
+                if c[0] == 'cmp':
+                    x = c[3] if len(c) > 3 else c[2]
+                    return x == d or x == -d
+                if c[0] in ('and', 'or', 'not'):
+                    return any(compared(y, d) for y in c[1:])
+                return False
+            P = [n for n in P if isinstance(w.carried[n][1], Rat) and
+                 any(compared(g, w.pre[n] - w.carried[n][1]) for g in w.breaks[0][0])]
+        if len(P) != 1 or len(w.breaks) != 1:
+            self.why = 'position variable / single exit of the walk not identified (%s, %d exits)' % (P, len(w.breaks))
+            return
+        self.start = _atom(w.pre[P[0]]).name.split('~')[0]
+        self.P = P[0]
+        self.phi = {n: w.carried[n][0] for n in w.carried}
+        self.end = {n: w.carried[n][1] for n in w.carried}
+        # heading: leaves of its update are {F, L, -L}
+        cand = []
+        for n in w.carried:
+            if n == self.P or not isinstance(self.end[n], Rat):
+                continue
+            leaves = _ite_leaves(self.end[n])
+            others = set()
+            for lf in leaves:
+                for x in walk_atoms(lf):
+                    if isinstance(x, Sym) and '~w' in x.name:
+                        others.add(x.name.split('~')[0])
+            if n in others and len(others) == 2 and len(leaves) >= 3:
+                cand.append((n, (others - {n}).pop()))
+        # F and L are updated from each other; F is the one the exit test compares
+        pairs = [(a_, b_) for a_, b_ in cand if (b_, a_) in cand]
+        brk = w.breaks[0][0]
+        self.brk = brk
+        batoms = set()
+        for g in brk:
+            from ..kutil import _cond_atoms
+            _cond_atoms(g, batoms)
+        # the heading starts at a constant (+-1), `left` at +- the row length (a parameter)
+        F = [a_ for a_, b_ in pairs if not self._mentions_param_scalar(w.pre.get(a_))]
+        if len(F) != 1:
+            self.why = 'heading variable not identified (candidates %s)' % sorted(set(p[0] for p in pairs))
+            return
+        self.F = F[0]
+        self.L = [b_ for a_, b_ in pairs if a_ == self.F][0]
+        self.ok = True
+
+    def _mentions_param_scalar(self, v):
+        """does the start value mention a numeric parameter (nx)?  the heading starts at +-1, left at +-nx"""
+        from ..sym import Sym, walk_atoms
+        if not isinstance(v, Rat):
+            return True
+        for lf in _ite_leaves(v):
+            if any(isinstance(x, Sym) for x in walk_atoms(lf)):
+                return True
+        return False
+
+
 def check_follow(prog, rep, m):
+    from fractions import Fraction as Fr
+    from ..kutil import CannotEvaluate, eval_cond_full, evaluate
+    from ..sym import Sym, walk_atoms
     f = m.funcs.get('_follow')
     if f is None:
         raise AnalysisIncomplete('_follow not found')
     entry = 'polygonize follower'
-    t = [T(s) for s in f.own_nodes() if isinstance(s, (ast.Assign, ast.AugAssign))]
-    ok = 'points[-1]=points[0]' in t and 'points=points.reshape((-1,2))' in t and 'points=np.empty(2*(npoints+1))' in t
-    rep.add('G4', f, entry, 'ring closed: points[-1] = points[0] (one extra point allocated)', f.node.lineno, ok,
-            'the last vertex of every ring must repeat the first')
-    # start orientation, evaluated on the statements that precede the walk (if/else or conditional expressions)
-    ok = None
-    why = ''
-    outer = [n for n in f.node.body if isinstance(n, ast.For)]
-    if outer:
-        pre = []
-        for st in outer[0].body:
-            if isinstance(st, ast.While):
-                break
-            pre.append(st)
+    R = FollowRoles(prog, f)
+    if not R.ok:
+        rep.add('G4', f, entry, 'boundary follower', f.node.lineno, None, R.why)
+        return None
+    k, w = R.k, R.w
+    # the parameters nx (row length) and hole: nx is the parameter in the start value of `left`, hole the one tested
+    preL, preF = w.pre[R.L], w.pre[R.F]
+    holes = set()
+    from ..kutil import _cond_atoms
+    for v in (preL, preF):
+        for a in walk_atoms(v):
+            if isinstance(a, App) and a.name == 'ite':
+                s_ = set()
+                _cond_atoms(a.args[0], s_)
+                holes |= {x.name for x in s_ if isinstance(x, Sym) and x.name in f.params}
+    nxs = {x.name for x in walk_atoms(preL) if isinstance(x, Sym) and x.name in f.params} - holes
+    if len(nxs) != 1 or len(holes) != 1:
+        rep.add('G4', f, entry, 'start orientation', f.node.lineno, None, 'row-length / hole parameters not identified: %s %s' % (nxs, holes))
+        return None
+    R.nx, R.hole = nxs.pop(), holes.pop()
+    NX = 5
+    base = {Sym(R.nx): Fr(NX)}
+    try:
         got = {}
-        try:
-            for hv in (True, False):
-                sp = Spec(prog, {'hole': ('const', hv), 'nx': Rat.sym('nx'), 'ij': Rat.sym('ij')}, m)
-                for st in pre:
-                    sp.it.stmt(st)
-                got[hv] = (sp.it.as_scalar(sp.it.env.get('forward')), sp.it.as_scalar(sp.it.env.get('left')))
-            ok = got[True] == (Rat.const(-1), -Rat.sym('nx')) and got[False] == (Rat.const(1), Rat.sym('nx'))
-            why = 'hole: %s, exterior: %s' % (got[True], got[False])
-        except (AnalysisIncomplete, KeyError, TypeError) as e:
-            ok, why = None, str(e)
+        for hv in (1, 0):
+            env = dict(base)
+            env[Sym(R.hole)] = Fr(hv)
+            got[hv] = (evaluate(preF, env), evaluate(preL, env))
+        ok = got[1] == (-1, -NX) and got[0] == (1, NX)
+        why = 'hole: %s, exterior: %s (row length %d)' % (tuple(map(int, got[1])), tuple(map(int, got[0])), NX)
+    except CannotEvaluate as e:
+        ok, why = None, str(e)
     rep.add('G4', f, entry, 'start orientation: exterior facing E (left = N), hole facing W (left = S)', f.node.lineno, ok,
             'exteriors are followed anticlockwise and holes clockwise; ' + why)
-    # corner offsets by direction
-    pt = [n for n in f.own_nodes() if isinstance(n, ast.If) and T(n.test) == 'forward==-1' and {T(s) for s in n.body} == {'i+=1', 'j+=1'}]
-    ok = False
-    if pt:
-        n = pt[0]
-        e1 = n.orelse[0] if n.orelse and isinstance(n.orelse[0], ast.If) else None
-        e2 = e1.orelse[0] if e1 is not None and e1.orelse and isinstance(e1.orelse[0], ast.If) else None
-        ok = e1 is not None and T(e1.test) == 'forward==nx' and [T(s) for s in e1.body] == ['i+=1'] and \
-            e2 is not None and T(e2.test) == 'forward==-nx' and [T(s) for s in e2.body] == ['j+=1']
-    ok = ok and 'i=ij%nx' in t and 'j=ij//nx' in t and 'points[2*npoints]=i' in t and 'points[2*npoints+1]=j' in t
+    # exit test: back at the start pixel with the start heading (values after the turn of this step)
+    ok = None
+    why = ''
+    try:
+        res = []
+        for dP, dF in ((0, 0), (1, 0), (0, 2), (3, 2)):
+            # bind the end-of-step position / heading through the comparison itself: the test is a conjunction of two
+            # equalities between (start value, value after the step)
+            env = {}
+            want = dP == 0 and dF == 0
+            res.append((_eval_exit(R, dP, dF), want))
+        ok = all(g is not None and g == w_ for g, w_ in res)
+        if any(g is None for g, w_ in res):
+            ok = None
+        why = 'exit taken on (same cell, same heading) only: %s' % [g for g, w_ in res]
+    except CannotEvaluate as e:
+        ok, why = None, str(e)
+    rep.add('G4', f, entry, 'boundary finished when back at the start pixel with the start heading', w.node.lineno, ok, why)
+    # vertices: two stores into the ring buffer at (2c, 2c+1) with the corner of the cell that the heading selects
+    vst = [s for s in k.stores if w in s.loops and s.arr.init == 'carried']
+    Pphi, Fphi = _atom(R.phi[R.P]), _atom(R.phi[R.F])
+    ok = None
+    why = ''
+    cname = None
+    if len(vst) == 2 and all(s.idx != 'all' and len(s.idx) == 1 for s in vst):
+        d = vst[1].idx[0] - vst[0].idx[0]
+        half = vst[0].idx[0] / Rat.const(2)
+        ca = _atom(half)
+        if d == Rat.const(1) and isinstance(ca, Sym):
+            cname = ca.name.split('~')[0]
+            P0 = 13
+            want = {1: (3, 2), -1: (4, 3), NX: (4, 2), -NX: (3, 3)}
+            try:
+                got = {}
+                for fv in want:
+                    env = dict(base)
+                    env[Pphi] = Fr(P0)
+                    env[Fphi] = Fr(fv)
+                    got[fv] = (int(evaluate(vst[0].value, env)), int(evaluate(vst[1].value, env)))
+                ok = got == want
+                why = 'cell (col 3, row 2), headings E/W/N/S -> %s' % [got[h] for h in (1, -1, NX, -NX)]
+            except CannotEvaluate as e:
+                ok, why = None, str(e)
+        else:
+            why = 'vertex stores are not at (2c, 2c+1)'
+    else:
+        why = '%d stores into the ring buffer inside the walk' % len(vst)
     rep.add('G4', f, entry, 'vertex = pixel corner by heading (E: (i,j), W: (i+1,j+1), N: (i+1,j), S: (i,j+1))', f.node.lineno, ok,
-            'vertices lie on cell corners: x from the column index, y from the row index')
-    ok = 'region=regions[ij]' in t and any(T(n) == 'return(region,points)' or T(n) == 'returnregion,points' for n in f.own_nodes() if isinstance(n, ast.Return))
-    rep.add('G4', f, entry, 'returns (region of the start pixel, points)', f.node.lineno, ok, '')
-    stop = [n for n in f.own_nodes() if isinstance(n, ast.If) and T(n.test) == 'ij==start_ijandforward==start_forward' and isinstance(n.body[0], ast.Break)]
-    rep.add('G4', f, entry, 'boundary finished when back at the start pixel with the start heading', f.node.lineno, len(stop) == 1, '')
+            'vertices lie on cell corners: x from the column index, y from the row index; ' + why)
+    # a vertex is emitted exactly when the heading changed, and counted in both passes
+    ok = None
+    why = ''
+    if cname in w.carried and vst:
+        prevs = [n for n in w.carried if isinstance(w.carried[n][1], Rat) and w.carried[n][1] == R.phi[R.F] and n != R.F]
+        cphi = _atom(R.phi[cname])
+        try:
+            if len(prevs) == 1:
+                pphi = _atom(R.phi[prevs[0]])
+                res = []
+                for fv, pv in ((1, 1), (1, NX), (-NX, -1), (NX, NX), (1, 0)):
+                    env = dict(base)
+                    env.update({Fphi: Fr(fv), pphi: Fr(pv), cphi: Fr(4), Pphi: Fr(13)})
+                    for l in R.outer:
+                        env[Sym(l.var)] = Fr(1)
+                    cnt = evaluate(w.carried[cname][1], env)
+                    emitted = all(eval_cond_full(g, env) for g in vst[0].guards)
+                    res.append((fv != pv, cnt == 5, emitted))
+                ok = all(a_ == b_ == c_ for a_, b_, c_ in res) and w.pre.get(cname) == Rat.const(0) and \
+                    w.pre.get(prevs[0]) == Rat.const(0)
+                why = '(turned, counted, stored) per case: %s; counter and previous heading start at 0' % res
+            else:
+                why = 'previous-heading variable not identified'
+        except CannotEvaluate as e:
+            ok, why = None, str(e)
+    rep.add('G4', f, entry, 'one vertex per change of heading (the first step included)', f.node.lineno, ok, why)
+    # ring closed: buffer of 2*(count+1) numbers, last point = first point, that array is returned
+    allocs = [ev[1] for ev in k.events if ev[0] == 'alloc' and getattr(ev[1], 'var', None) is not None and
+              any(s.arr.name.split('~')[0] == ev[1].var for s in vst)]
+    ok = None
+    why = ''
+    if len(allocs) == 1 and allocs[0].shape and len(allocs[0].shape) == 1 and cname is not None:
+        shp = allocs[0].shape[0]
+        couts = [x for x in walk_atoms(shp) if isinstance(x, Sym) and x.name.startswith(cname + '~')]
+        try:
+            ok = len(couts) == 1 and evaluate(shp, {couts[0]: Fr(7)}) == 16
+            why = 'buffer length for 7 vertices: %s' % (evaluate(shp, {couts[0]: Fr(7)}) if len(couts) == 1 else '?')
+        except CannotEvaluate as e:
+            ok, why = None, str(e)
+    else:
+        why = 'ring buffer allocation not identified'
+    rep.add('G4', f, entry, 'ring buffer holds one point more than the vertices counted', f.node.lineno, ok, why)
+    pa = _atom(R.ret_points) if isinstance(R.ret_points, Rat) else None
+    closing = [s for s in k.stores if not s.loops and pa is not None and s.arr.name == repr(pa)]
+    ok = None
+    if pa is not None and not [s for s in k.stores if not s.loops]:
+        ok = False        # nothing is written after the walk: the ring stays open
+    if pa is not None and closing:
+        s_ = closing[-1]
+        va = _atom(s_.value) if isinstance(s_.value, Rat) else None
+        ok = len(closing) == 1 and not [g for g in s_.guards if g != ('const', True)] and s_.idx != 'all' and \
+            s_.idx[0] == Rat.const(-1) and isinstance(va, App) and va.name in ('read', 'cell?') and va.args[0] == s_.arr.name and \
+            va.args[1] == Rat.const(0) and 'reshape' in repr(pa) and repr(pa).count('tuple(-1, 2)') == 1
+    rep.add('G4', f, entry, 'ring closed: last point = first point of the returned (n, 2) array', f.node.lineno, ok,
+            'the last vertex of every ring must repeat the first; closing stores: %s' %
+            [(str(s_.idx), show(s_.value, 60)) for s_ in closing])
+    ia = _atom(R.ret_index)
+    # the walk ends on the start pixel (exit test above), so the position after the walk names the same cell
+    ok = (isinstance(ia, Sym) and ia.name.split('~')[0] in (R.start, R.P)) or \
+        (isinstance(ia, App) and ia.name == 'loopout' and str(ia.args[0]).strip("'") == R.P)
+    rep.add('G4', f, entry, 'returns (region of the start pixel, points)', f.node.lineno, ok,
+            'region id read at %s' % show(R.ret_index, 60))
+    return R
+
+
+def _eval_exit(R, dP, dF):
+    """is the walk left when the position / heading after the step differ from their start values by dP / dF?"""
+    from fractions import Fraction as Fr
+    from ..kutil import CannotEvaluate, eval_cond_full
+    w = R.w
+    endP, endF = R.end[R.P], R.end[R.F]
+    preP, preF = w.pre[R.P], w.pre[R.F]
+
+    # the exit test compares (start value - value after the step): replace those differences by numbers
+    def ev(c):
+        if c[0] == 'cmp':
+            d = c[3] if len(c) > 3 else c[2]
+            for sign in (1, -1):
+                if d == (preP - endP) * Rat.const(sign):
+                    v = Fr(dP) * sign
+                    break
+                if d == (preF - endF) * Rat.const(sign):
+                    v = Fr(dF) * sign
+                    break
+            else:
+                raise CannotEvaluate('exit test compares something else than (position, heading) with their start values')
+            return {'==': v == 0, '!=': v != 0, '<': v < 0, '<=': v <= 0}[c[1]]
+        if c[0] == 'and':
+            return all(ev(x) for x in c[1:])
+        if c[0] == 'or':
+            return any(ev(x) for x in c[1:])
+        if c[0] == 'not':
+            return not ev(c[1])
+        if c[0] == 'const':
+            return bool(c[1])
+        raise CannotEvaluate(repr(c)[:80])
+    return all(ev(g) for g in R.brk)
 
 
 def check_misc(prog, rep, m):
@@ -394,8 +844,8 @@ def check(prog, rep):
     if m is None:
         raise AnalysisIncomplete('experimental.polygonize not found')
     check_neighbours(prog, rep, m)
-    check_scan(prog, rep, m)
-    check_follow(prog, rep, m)
+    R = check_follow(prog, rep, m)
+    check_scan(prog, rep, m, R)
     check_misc(prog, rep, m)
     rep.floor('G1', 3)
     rep.floor('G2', 5)
